@@ -490,6 +490,539 @@ reg("tensor.ttm", "tensor_ttm",
 
 
 # ================================================================================================
+# shared request shapes for the other classes
+# ================================================================================================
+def two_shapes(name, mk1, mk2, f, pool_min=1, cname="same_shape", extra=None):
+    reg(name, cname, lambda a: f"{zl(a['s'])} {zl(a['u'])}", lambda a: a["s"] == a["u"],
+        lambda a: (lambda x, y: ([x, y], lambda: f(x, y)))(mk1(a["s"]), mk2(a["u"])),
+        lambda rng, tier: [(dict(a), t) for a, t in _g_two_shapes(rng, tier) if len(a["s"]) >= pool_min and len(a["u"]) >= pool_min])
+
+
+def perm_op(name, mk, f, guard="sorted_perm"):
+    reg(name, ("perm", guard), lambda a: f"{zl(a['s'])} {zl(a['order'])}", lambda a: is_perm(len(a["s"]), a["order"]),
+        lambda a: (lambda x: ([x], lambda: f(x, _np().array(a["order"], dtype=int))))(mk(a["s"])), _g_permute)
+
+
+def ttv_op(name, mk, pool_min=1):
+    reg(name, "ttv", lambda a: f"{zl(a['s'])} {zl(a['vlens'])} {zo(a['dims'])} {zo(a['excl'])}", _pre_ttv,
+        lambda a: (lambda x, vs: ([x, vs], lambda: x.ttv(vs, *_dims(a))))(mk(a["s"]), [arr((n,), 2) for n in a["vlens"]]),
+        lambda rng, tier: [(a, t) for a, t in _g_ttv(rng, tier) if len(a["s"]) >= pool_min], guard=False)
+
+
+def ttm_op(name, mk, pool_min=1):
+    reg(name, "ttm", lambda a: f"{zl(a['s'])} {pl(a['ms'])} {zo(a['dims'])} {zo(a['excl'])} {gbool(a['tr'])}", _pre_ttm,
+        lambda a: (lambda x, ms: ([x, ms], lambda: x.ttm(ms, *_dims(a), transpose=a["tr"])))(mk(a["s"]), [arr(m, 3) for m in a["ms"]]),
+        lambda rng, tier: [(a, t) for a, t in _g_ttm(rng, tier) if len(a["s"]) >= pool_min], guard=False)
+
+
+def _g_mttkrp(rng, tier, minN=2):
+    out = []
+    for s in pool(tier, 1):
+        N = len(s)
+        R = 2
+        good = [[d, R] for d in s]
+        for n in range(N):
+            tagc = "control" if N >= 2 else "one_way"
+            out.append(({"s": list(s), "us": good, "n": n}, tagc))
+            if N < 2:
+                continue
+            out.append(({"s": list(s), "us": good[:-1], "n": n}, "list_short"))
+            out.append(({"s": list(s), "us": good + [[2, R]], "n": n}, "list_long"))
+            for k in range(N):
+                if k == n:
+                    continue
+                out.append(({"s": list(s), "us": good[:k] + [[s[k] + 1, R]] + good[k + 1:], "n": n}, "rows"))
+                out.append(({"s": list(s), "us": good[:k] + [[s[k], R + 1]] + good[k + 1:], "n": n}, "cols"))
+                out.append(({"s": list(s), "us": good[:k] + [[s[k], 1]] + good[k + 1:], "n": n}, "cols_one"))
+                if s[k] != R:
+                    out.append(({"s": list(s), "us": good[:k] + [[R, s[k]]] + good[k + 1:], "n": n}, "swapped"))
+        if N >= 2:
+            out.append(({"s": list(s), "us": good, "n": -1}, "neg_mode"))
+            out.append(({"s": list(s), "us": good, "n": -N}, "neg_mode"))
+            out.append(({"s": list(s), "us": good, "n": N}, "oob_mode"))
+    return out
+
+
+def _pre_mttkrp(a):
+    s, us, n, N = a["s"], a["us"], a["n"], len(a["s"])
+    if N < 2 or len(us) != N or not in_range(N, n):
+        return False
+    R = us[1 if n == 0 else 0][1]
+    return all(i == n or (us[i][0] == s[i] and us[i][1] == R) for i in range(N))
+
+
+def mttkrp_op(name, mk):
+    reg(name, "mttkrp", lambda a: f"{zl(a['s'])} {pl(a['us'])} {gz(a['n'])}", _pre_mttkrp,
+        lambda a: (lambda x, us: ([x, us], lambda: x.mttkrp(us, a["n"])))(mk(a["s"]), [arr(u, 2) for u in a["us"]]),
+        _g_mttkrp, guard=False)
+
+
+# ---------------------------------------------------------------- tensor (continued)
+mttkrp_op("tensor.mttkrp", T)
+
+
+def _g_modes(rng, tier):
+    out = []
+    for s in pool(tier):
+        N = len(s)
+        for d in subsets(N, rng, tier):
+            out.append(({"s": list(s), "d": d}, "control"))
+        for tag, d in bad_mode_lists(N):
+            out.append(({"s": list(s), "d": d}, tag))
+    return out
+
+
+reg("tensor.collapse", "collapse", lambda a: f"{zl(a['s'])} {zl(a['d'])}", lambda a: modes_ok(len(a["s"]), a["d"]),
+    lambda a: (lambda x: ([x], lambda: x.collapse(_np().array(a["d"], dtype=int))))(T(a["s"])), _g_modes, guard=False)
+reg("sptensor.collapse", "collapse", lambda a: f"{zl(a['s'])} {zl(a['d'])}", lambda a: modes_ok(len(a["s"]), a["d"]),
+    lambda a: (lambda x: ([x], lambda: x.collapse(_np().array(a["d"], dtype=int))))(S(a["s"])), _g_modes, guard=False)
+
+
+def _g_scale(rng, tier):
+    out = []
+    for s in pool(tier):
+        N = len(s)
+        for d in subsets(N, rng, tier):
+            if d != sorted(d):
+                continue
+            f = [s[m] for m in d]
+            out.append(({"s": list(s), "f": f, "d": d}, "control"))
+            out.append(({"s": list(s), "f": f[:-1] + [f[-1] + 1], "d": d}, "size"))
+            if f[-1] != 1:
+                out.append(({"s": list(s), "f": f[:-1] + [1], "d": d}, "size_one"))
+            if f != f[::-1]:
+                out.append(({"s": list(s), "f": f[::-1], "d": d}, "swapped"))
+            out.append(({"s": list(s), "f": f + [1], "d": d}, "extra_mode"))
+        for tag, d in bad_mode_lists(N):
+            out.append(({"s": list(s), "f": [s[m] if 0 <= m < N else 2 for m in d], "d": d}, tag))
+    return out
+
+
+reg("tensor.scale", "scale", lambda a: f"{zl(a['s'])} {zl(a['f'])} {zl(a['d'])}",
+    lambda a: modes_ok(len(a["s"]), a["d"]) and a["f"] == [a["s"][m] for m in a["d"]],
+    lambda a: (lambda x, f: ([x, f], lambda: x.scale(f, _np().array(a["d"], dtype=int))))(T(a["s"]), T(a["f"])), _g_scale, guard=False)
+
+
+def _g_to_tenmat(rng, tier):
+    out = []
+    for s in pool(tier):
+        N = len(s)
+        for r in range(0, N + 1):
+            for rd in itertools.combinations(range(N), r):
+                cd = [m for m in range(N) if m not in rd]
+                out.append(({"s": list(s), "rd": list(rd), "cd": cd}, "control"))
+                if cd:
+                    out.append(({"s": list(s), "rd": list(rd), "cd": cd[:-1]}, "missing_mode"))
+                    out.append(({"s": list(s), "rd": list(rd), "cd": cd + [cd[0]]}, "rep_mode"))
+                    out.append(({"s": list(s), "rd": list(rd), "cd": cd[:-1] + [N]}, "oob_mode"))
+                    out.append(({"s": list(s), "rd": list(rd), "cd": cd[:-1] + [cd[-1] - N]}, "neg_mode"))
+                if rd:
+                    out.append(({"s": list(s), "rd": list(rd), "cd": cd + [rd[0]]}, "rep_mode"))
+    return out
+
+
+reg("tensor.to_tenmat", "to_tenmat", lambda a: f"{zl(a['s'])} {zl(a['rd'])} {zl(a['cd'])}",
+    lambda a: is_perm(len(a["s"]), a["rd"] + a["cd"]),
+    lambda a: (lambda x: ([x], lambda: x.to_tenmat(_np().array(a["rd"], dtype=int), _np().array(a["cd"], dtype=int))))(T(a["s"])),
+    _g_to_tenmat, guard=False)
+reg("sptensor.to_sptenmat", "to_tenmat", lambda a: f"{zl(a['s'])} {zl(a['rd'])} {zl(a['cd'])}",
+    lambda a: is_perm(len(a["s"]), a["rd"] + a["cd"]),
+    lambda a: (lambda x: ([x], lambda: x.to_sptenmat(_np().array(a["rd"], dtype=int), _np().array(a["cd"], dtype=int))))(S(a["s"])),
+    _g_to_tenmat, guard=False)
+
+
+def _g_ttt(rng, tier):
+    out = []
+    for s in pool(tier, 2, 3):
+        for u in pool(tier, 2, 3):
+            for k in (1, 2):
+                for sd in itertools.permutations(range(len(s)), k):
+                    for od in itertools.permutations(range(len(u)), k):
+                        ok = all(s[a_] == u[b_] for a_, b_ in zip(sd, od))
+                        if ok or rng.random() < 0.08:
+                            out.append(({"s": list(s), "u": list(u), "sd": list(sd), "od": list(od)}, "control" if ok else "size"))
+        N = len(s)
+        out.append(({"s": list(s), "u": list(s), "sd": [0, 0], "od": [0, 0]}, "rep_mode"))
+        out.append(({"s": list(s), "u": list(s), "sd": [N], "od": [N]}, "oob_mode"))
+        out.append(({"s": list(s), "u": list(s), "sd": [-1], "od": [-1]}, "neg_mode"))
+        out.append(({"s": list(s), "u": list(s), "sd": [0, 1], "od": [0]}, "count"))
+    return out
+
+
+reg("tensor.ttt", "ttt", lambda a: f"{zl(a['s'])} {zl(a['u'])} {zl(a['sd'])} {zl(a['od'])}",
+    lambda a: modes_ok(len(a["s"]), a["sd"]) and modes_ok(len(a["u"]), a["od"])
+    and [a["s"][m] for m in a["sd"]] == [a["u"][m] for m in a["od"]],
+    lambda a: (lambda x, y: ([x, y], lambda: x.ttt(y, _np().array(a["sd"], dtype=int), _np().array(a["od"], dtype=int))))(T(a["s"]), T(a["u"])),
+    _g_ttt, guard=False)
+
+
+def _g_linear(rng, tier):
+    out = []
+    for s in pool(tier):
+        n = math.prod(s)
+        for k, tag in ((0, "control"), (n - 1, "control"), (n, "oob_index"), (n + 1, "oob_index"), (2 * n + 3, "oob_index")):
+            out.append(({"s": list(s), "k": k}, tag))
+    return out
+
+
+def _set_linear(x, k):
+    x[_np().array([k])] = 9.0
+
+
+reg("tensor.setitem_linear", "linear_index", lambda a: f"{zl(a['s'])} {gz(a['k'])}", lambda a: 0 <= a["k"] < math.prod(a["s"]),
+    lambda a: (lambda x: ([x], lambda: _set_linear(x, a["k"])))(T(a["s"])), _g_linear, mutating=True, guard=False)
+reg("tensor.getitem_linear", "linear_index", lambda a: f"{zl(a['s'])} {gz(a['k'])}", lambda a: 0 <= a["k"] < math.prod(a["s"]),
+    lambda a: (lambda x: ([x], lambda: x[_np().array([a["k"]])]))(T(a["s"])), _g_linear, guard=False)
+
+# ---------------------------------------------------------------- sptensor
+
+
+def _g_sp_ctor(rng, tier):
+    out = []
+    for s in pool(tier):
+        N = len(s)
+        top = [d - 1 for d in s]
+        zero = [0] * N
+        good = [zero, top] if top != zero else [zero]
+        out.append(({"s": list(s), "subs": good, "nvals": len(good)}, "control"))
+        for k in range(N):
+            bad = top[:k] + [s[k]] + top[k + 1:]
+            out.append(({"s": list(s), "subs": [zero, bad], "nvals": 2}, "oob_sub"))
+        out.append(({"s": list(s), "subs": [zero + [0], top + [0]], "nvals": 2}, "extra_col"))
+        if N > 1:
+            out.append(({"s": list(s), "subs": [zero[:-1], top[:-1]], "nvals": 2}, "missing_col"))
+        out.append(({"s": list(s), "subs": good, "nvals": len(good) + 1}, "vals_count"))
+        if len(good) == 2:
+            out.append(({"s": list(s), "subs": good, "nvals": 1}, "vals_count"))
+    return out
+
+
+def _pre_sp_ctor(a):
+    s = a["s"]
+    return all(len(r) == len(s) and all(0 <= x < d for x, d in zip(r, s)) for r in a["subs"]) and a["nvals"] == len(a["subs"])
+
+
+def _mk_subs(a):
+    np = _np()
+    subs = np.array(a["subs"], dtype=int)
+    vals = np.arange(1.0, a["nvals"] + 1).reshape((a["nvals"], 1))
+    return subs, vals
+
+
+reg("sptensor.ctor", "sptensor_ctor", lambda a: f"{zl(a['s'])} {zll(a['subs'])} {gz(a['nvals'])}", _pre_sp_ctor,
+    lambda a: (lambda sv: ([sv[0], sv[1]], lambda: _ttb().sptensor(sv[0], sv[1], tuple(a["s"]))))(_mk_subs(a)), _g_sp_ctor, guard=False)
+reg("sptensor.from_aggregator", "sptensor_ctor", lambda a: f"{zl(a['s'])} {zll(a['subs'])} {gz(a['nvals'])}", _pre_sp_ctor,
+    lambda a: (lambda sv: ([sv[0], sv[1]], lambda: _ttb().sptensor.from_aggregator(sv[0], sv[1], tuple(a["s"]))))(_mk_subs(a)),
+    _g_sp_ctor, guard=False)
+
+
+def _g_extract(rng, tier):
+    out = []
+    for s in pool(tier):
+        N = len(s)
+        top = [d - 1 for d in s]
+        zero = [0] * N
+        out.append(({"s": list(s), "subs": [zero, top]}, "control"))
+        for k in range(N):
+            out.append(({"s": list(s), "subs": [zero, top[:k] + [s[k]] + top[k + 1:]]}, "oob_sub"))
+            out.append(({"s": list(s), "subs": [zero[:k] + [-1] + zero[k + 1:], top]}, "neg_sub"))
+    return out
+
+
+reg("sptensor.extract", "subs", lambda a: f"{zl(a['s'])} {zll(a['subs'])}",
+    lambda a: all(len(r) == len(a["s"]) and all(0 <= x < d for x, d in zip(r, a["s"])) for r in a["subs"]),
+    lambda a: (lambda x: ([x], lambda: x.extract(_np().array(a["subs"], dtype=int))))(S(a["s"])), _g_extract, guard=False)
+
+
+def _g_sp_innerprod(rng, tier):
+    return [(dict(a, empty=e), t) for a, t in _g_two_shapes(rng, tier) for e in (False, True)]
+
+
+reg("sptensor.innerprod_sp", "sptensor_innerprod", lambda a: f"{zl(a['s'])} {gbool(a['empty'])} {zl(a['u'])}", lambda a: a["s"] == a["u"],
+    lambda a: (lambda x, y: ([x, y], lambda: x.innerprod(y)))(S(a["s"], a["empty"]), S(a["u"])), _g_sp_innerprod)
+reg("sptensor.innerprod_dense", "sptensor_innerprod", lambda a: f"{zl(a['s'])} {gbool(a['empty'])} {zl(a['u'])}", lambda a: a["s"] == a["u"],
+    lambda a: (lambda x, y: ([x, y], lambda: x.innerprod(y)))(S(a["s"], a["empty"]), T(a["u"])), _g_sp_innerprod)
+two_shapes("sptensor.add", S, S, lambda x, y: x + y)
+two_shapes("sptensor.sub", S, S, lambda x, y: x - y)
+two_shapes("sptensor.mul", S, S, lambda x, y: x * y)
+two_shapes("sptensor.logical_and", S, S, lambda x, y: x.logical_and(y))
+two_shapes("sptensor.logical_or", S, S, lambda x, y: x.logical_or(y))
+two_shapes("sptensor.eq", S, S, lambda x, y: x == y)
+two_shapes("sptensor.mul_dense", S, T, lambda x, y: x * y)
+perm_op("sptensor.permute", S, lambda x, o: x.permute(o))
+reg("sptensor.reshape", ("reshape", "tensor_reshape"), lambda a: f"{zl(a['s'])} {zl(a['new'])}", lambda a: math.prod(a["s"]) == math.prod(a["new"]),
+    lambda a: (lambda t: ([t], lambda: t.reshape(tuple(a["new"]))))(S(a["s"])), _g_reshape)
+ttv_op("sptensor.ttv", S)
+ttm_op("sptensor.ttm", S)
+mttkrp_op("sptensor.mttkrp", S)
+
+# ---------------------------------------------------------------- ktensor
+
+
+def _g_k_ctor(rng, tier):
+    out = []
+    for s in pool(tier):
+        R = 2
+        good = [[d, R] for d in s]
+        out.append(({"ms": good, "w": None}, "control"))
+        out.append(({"ms": good, "w": R}, "control"))
+        out.append(({"ms": good, "w": R + 1}, "weights_len"))
+        out.append(({"ms": good, "w": 1}, "weights_len"))
+        for k in range(1, len(s)):
+            out.append(({"ms": good[:k] + [[s[k], R + 1]] + good[k + 1:], "w": None}, "cols"))
+            out.append(({"ms": good[:k] + [[s[k], 1]] + good[k + 1:], "w": R}, "cols_one"))
+        if len(s) > 1:
+            out.append(({"ms": [[s[0], R + 1]] + good[1:], "w": R}, "cols"))
+    return out
+
+
+def _pre_k_ctor(a):
+    R = a["ms"][0][1]
+    return all(m[1] == R for m in a["ms"]) and (a["w"] is None or a["w"] == R)
+
+
+reg("ktensor.ctor", "ktensor_ctor", lambda a: f"{pl(a['ms'])} {gopt(a['w'], gz)}", _pre_k_ctor,
+    lambda a: (lambda fs, w: ([fs, w], lambda: _ttb().ktensor(fs, w)))([arr(m, 2) for m in a["ms"]],
+                                                                      None if a["w"] is None else _np().arange(1.0, a["w"] + 1)),
+    _g_k_ctor)
+
+
+def _g_arrange(rng, tier):
+    out = []
+    for R in (1, 2, 3):
+        for p in itertools.permutations(range(R)):
+            out.append(({"s": [2, 3], "R": R, "p": list(p)}, "control"))
+        out.append(({"s": [2, 3], "R": R, "p": list(range(R - 1))}, "short"))
+        out.append(({"s": [2, 3], "R": R, "p": list(range(R + 1))}, "long"))
+        out.append(({"s": [2, 3], "R": R, "p": [0] * R}, "rep_comp" if R > 1 else "control"))
+        out.append(({"s": [2, 3], "R": R, "p": list(range(1, R + 1))}, "oob_comp"))
+        out.append(({"s": [2, 3], "R": R, "p": [-1] + list(range(R - 1))}, "neg_comp"))
+        if R > 2:
+            out.append(({"s": [2, 3], "R": R, "p": [0, 1, 1]}, "rep_comp"))
+    return out
+
+
+reg("ktensor.arrange", "ktensor_arrange", lambda a: f"{gz(a['R'])} {zl(a['p'])}", lambda a: is_perm(a["R"], a["p"]),
+    lambda a: (lambda x: ([x], lambda: x.arrange(permutation=list(a["p"]))))(K(a["s"], a["R"])), _g_arrange, mutating=True)
+
+
+def _g_k_extract(rng, tier):
+    out = []
+    for R in (1, 2, 3):
+        for r in range(1, R + 1):
+            for p in itertools.permutations(range(R), r):
+                out.append(({"s": [2, 3], "R": R, "idx": list(p)}, "control"))
+        out.append(({"s": [2, 3], "R": R, "idx": []}, "empty"))
+        out.append(({"s": [2, 3], "R": R, "idx": list(range(R + 1))}, "too_many"))
+        out.append(({"s": [2, 3], "R": R, "idx": [R]}, "oob_comp"))
+        out.append(({"s": [2, 3], "R": R, "idx": [-1]}, "neg_comp"))
+    return out
+
+
+reg("ktensor.extract", "ktensor_extract", lambda a: f"{gz(a['R'])} {zl(a['idx'])}",
+    lambda a: 1 <= len(a["idx"]) <= a["R"] and all(0 <= x < a["R"] for x in a["idx"]),
+    lambda a: (lambda x: ([x], lambda: x.extract(list(a["idx"]))))(K(a["s"], a["R"])), _g_k_extract)
+
+
+def _g_mode(rng, tier):
+    out = []
+    for s in pool(tier):
+        N = len(s)
+        for n in range(N):
+            out.append(({"s": list(s), "n": n}, "control"))
+        out += [({"s": list(s), "n": N}, "oob_mode"), ({"s": list(s), "n": -1}, "neg_mode"), ({"s": list(s), "n": -N}, "neg_mode"),
+                ({"s": list(s), "n": N + 2}, "oob_mode")]
+    return out
+
+
+reg("ktensor.redistribute", "mode", lambda a: f"{zl(a['s'])} {gz(a['n'])}", lambda a: in_range(len(a["s"]), a["n"]),
+    lambda a: (lambda x: ([x], lambda: x.redistribute(a["n"])))(K(a["s"])), _g_mode, mutating=True, guard=False)
+reg("ktensor.normalize_mode", "mode", lambda a: f"{zl(a['s'])} {gz(a['n'])}", lambda a: in_range(len(a["s"]), a["n"]),
+    lambda a: (lambda x: ([x], lambda: x.normalize(mode=a["n"])))(K(a["s"])), _g_mode, mutating=True, guard=False)
+reg("tensor.nvecs", "mode", lambda a: f"{zl(a['s'])} {gz(a['n'])}", lambda a: in_range(len(a["s"]), a["n"]),
+    lambda a: (lambda x: ([x], lambda: x.nvecs(a["n"], 1)))(T(a["s"])),
+    lambda rng, tier: [(a, t) for a, t in _g_mode(rng, tier) if len(a["s"]) >= 2 and a["s"][0] > 1], guard=False)
+two_shapes("ktensor.innerprod", K, K, lambda x, y: x.innerprod(y))
+two_shapes("ktensor.innerprod_dense", K, T, lambda x, y: x.innerprod(y))
+two_shapes("ktensor.add", K, K, lambda x, y: x + y)
+perm_op("ktensor.permute", K, lambda x, o: x.permute(o))
+ttv_op("ktensor.ttv", K)
+mttkrp_op("ktensor.mttkrp", K)
+
+# ---------------------------------------------------------------- ttensor
+
+
+def _g_tt_ctor(rng, tier):
+    out = []
+    for s in pool(tier):
+        core = [2 + (i % 2) for i in range(len(s))]
+        good = [[d, c] for d, c in zip(s, core)]
+        out.append(({"core": core, "ms": good}, "control"))
+        out.append(({"core": core, "ms": good[:-1]}, "list_short"))
+        out.append(({"core": core, "ms": good + [[2, 2]]}, "list_long"))
+        for k in range(len(s)):
+            out.append(({"core": core, "ms": good[:k] + [[s[k], core[k] + 1]] + good[k + 1:]}, "cols"))
+            out.append(({"core": core, "ms": good[:k] + [[s[k], 1]] + good[k + 1:]}, "cols_one"))
+            if s[k] != core[k]:
+                out.append(({"core": core, "ms": good[:k] + [[core[k], s[k]]] + good[k + 1:]}, "swapped"))
+    return out
+
+
+reg("ttensor.ctor", "ttensor_ctor", lambda a: f"{zl(a['core'])} {pl(a['ms'])}",
+    lambda a: len(a["ms"]) == len(a["core"]) and all(m[1] == c for m, c in zip(a["ms"], a["core"])),
+    lambda a: (lambda c, fs: ([c, fs], lambda: _ttb().ttensor(c, fs)))(T(a["core"]), [arr(m, 2) for m in a["ms"]]), _g_tt_ctor)
+
+
+def TTs(s):
+    return TT(s, [2] * len(s))
+
+
+two_shapes("ttensor.innerprod", TTs, TTs, lambda x, y: x.innerprod(y))
+two_shapes("ttensor.innerprod_dense", TTs, T, lambda x, y: x.innerprod(y))
+perm_op("ttensor.permute", TTs, lambda x, o: x.permute(o))
+ttv_op("ttensor.ttv", TTs)
+ttm_op("ttensor.ttm", TTs)
+mttkrp_op("ttensor.mttkrp", TTs)
+
+# ---------------------------------------------------------------- tenmat / sptenmat
+
+
+def _g_tenmat_ctor(rng, tier):
+    out = []
+    for s in pool(tier, 2):
+        N = len(s)
+        for r in range(1, N):
+            for rd in itertools.combinations(range(N), r):
+                rd = list(rd)
+                cd = [m for m in range(N) if m not in rd]
+                rp, cp = math.prod(s[m] for m in rd), math.prod(s[m] for m in cd)
+                base = {"ts": list(s), "rd": rd, "cd": cd}
+                out.append((dict(base, d=[rp, cp]), "control"))
+                if rp != cp:
+                    out.append((dict(base, d=[cp, rp]), "swapped"))
+                out.append((dict(base, d=[rp, cp + 1]), "count"))
+                if rp * cp > 1:
+                    out.append((dict(base, d=[1, rp * cp]), "control" if rp == 1 else "regrouped"))
+                out.append((dict(base, d=[rp, cp], cd=cd[:-1]), "missing_mode"))
+                out.append((dict(base, d=[rp, cp], cd=cd + [rd[0]]), "rep_mode"))
+                out.append((dict(base, d=[rp, cp], cd=cd[:-1] + [N]), "oob_mode"))
+    return out
+
+
+def _pre_tenmat_ctor(a):
+    ts = a["ts"]
+    if not is_perm(len(ts), a["rd"] + a["cd"]):
+        return False
+    return a["d"][0] == math.prod(ts[m] for m in a["rd"]) and a["d"][1] == math.prod(ts[m] for m in a["cd"])
+
+
+reg("tenmat.ctor", "tenmat_ctor", lambda a: f"({gz(a['d'][0])}, {gz(a['d'][1])}) {zl(a['rd'])} {zl(a['cd'])} {zl(a['ts'])}", _pre_tenmat_ctor,
+    lambda a: (lambda d: ([d], lambda: _ttb().tenmat(d, _np().array(a["rd"], dtype=int), _np().array(a["cd"], dtype=int), tuple(a["ts"]))))(arr(a["d"])),
+    _g_tenmat_ctor, guard=False)
+
+
+def TM(rc):
+    return _ttb().tenmat(arr(rc), _np().array([0]), _np().array([1]), tuple(rc))
+
+
+def _g_mat2(rng, tier):
+    out = []
+    for a_ in [(2, 3), (3, 3), (1, 4), (4, 1), (1, 1)]:
+        out.append(({"a": list(a_), "b": [a_[1], 2]}, "control"))
+        out.append(({"a": list(a_), "b": [a_[1] + 1, 2]}, "inner"))
+        out.append(({"a": list(a_), "b": [1, a_[1]]}, "inner" if a_[1] != 1 else "control"))
+        if a_[0] != a_[1]:
+            out.append(({"a": list(a_), "b": list(a_)}, "inner"))
+    return out
+
+
+reg("tenmat.mul", "tenmat_mul", lambda a: f"({gz(a['a'][0])}, {gz(a['a'][1])}) ({gz(a['b'][0])}, {gz(a['b'][1])})",
+    lambda a: a["a"][1] == a["b"][0], lambda a: (lambda x, y: ([x, y], lambda: x * y))(TM(a["a"]), TM(a["b"])), _g_mat2)
+two_shapes("tenmat.add", TM, TM, lambda x, y: x + y, cname="same_shape")
+OPS["tenmat.add"].gen = lambda rng, tier: [(a, t) for a, t in _g_two_shapes(rng, tier) if len(a["s"]) == 2 and len(a["u"]) == 2]
+
+
+def _g_sptenmat_ctor(rng, tier):
+    out = []
+    for s in pool(tier, 2):
+        N = len(s)
+        for r in range(1, N):
+            for rd in itertools.combinations(range(N), r):
+                rd = list(rd)
+                cd = [m for m in range(N) if m not in rd]
+                rp, cp = math.prod(s[m] for m in rd), math.prod(s[m] for m in cd)
+                base = {"ts": list(s), "rd": rd, "cd": cd}
+                out.append((dict(base, mr=rp - 1, mc=cp - 1), "control"))
+                out.append((dict(base, mr=rp, mc=cp - 1), "row_eq_size"))
+                out.append((dict(base, mr=rp - 1, mc=cp), "col_eq_size"))
+                out.append((dict(base, mr=rp + 1, mc=cp - 1), "oob_row"))
+                out.append((dict(base, mr=rp - 1, mc=cp + 2), "oob_col"))
+                out.append((dict(base, mr=rp - 1, mc=cp - 1, cd=cd[:-1]), "missing_mode"))
+                out.append((dict(base, mr=rp - 1, mc=cp - 1, cd=cd + [rd[0]]), "rep_mode"))
+    return out
+
+
+def _pre_sptenmat_ctor(a):
+    ts = a["ts"]
+    if not is_perm(len(ts), a["rd"] + a["cd"]):
+        return False
+    return a["mr"] < math.prod(ts[m] for m in a["rd"]) and a["mc"] < math.prod(ts[m] for m in a["cd"])
+
+
+reg("sptenmat.ctor", "sptenmat_ctor", lambda a: f"{gz(a['mr'])} {gz(a['mc'])} {zl(a['rd'])} {zl(a['cd'])} {zl(a['ts'])}", _pre_sptenmat_ctor,
+    lambda a: (lambda subs, vals: ([subs, vals], lambda: _ttb().sptenmat(subs, vals, _np().array(a["rd"], dtype=int),
+                                                                          _np().array(a["cd"], dtype=int), tuple(a["ts"]))))(
+        _np().array([[0, 0], [a["mr"], a["mc"]]], dtype=int), _np().array([[1.0], [2.0]])),
+    _g_sptenmat_ctor)
+
+# ---------------------------------------------------------------- sumtensor / khatrirao
+
+
+def _g_shapes_list(rng, tier):
+    out = []
+    for s in pool(tier):
+        out.append(({"shapes": [list(s), list(s)]}, "control"))
+        out.append(({"shapes": [list(s), list(s), list(s)]}, "control"))
+        for tag, v in shape_variants(s):
+            out.append(({"shapes": [list(s), v]}, tag))
+            out.append(({"shapes": [list(s), list(s), v]}, tag))
+    return out
+
+
+reg("sumtensor.ctor", "all_same_shape", lambda a: zll(a["shapes"]), lambda a: all(x == a["shapes"][0] for x in a["shapes"]),
+    lambda a: (lambda ps: ([ps], lambda: _ttb().sumtensor(ps)))([T(a["shapes"][0])] + [K(x) for x in a["shapes"][1:]]), _g_shapes_list)
+
+
+def SU(s):
+    return _ttb().sumtensor([T(s), K(s)])
+
+
+two_shapes("sumtensor.add", SU, T, lambda x, y: x + y)
+two_shapes("sumtensor.innerprod", SU, T, lambda x, y: x.innerprod(y))
+ttv_op("sumtensor.ttv", SU)
+mttkrp_op("sumtensor.mttkrp", SU)
+
+
+def _g_khatrirao(rng, tier):
+    out = []
+    for rows_ in ([2, 3], [3, 3, 2], [1, 4], [2], [1, 1, 1]):
+        R = 2
+        good = [[r, R] for r in rows_]
+        out.append(({"ms": good}, "control"))
+        for k in range(len(rows_)):
+            if len(rows_) > 1:
+                out.append(({"ms": good[:k] + [[rows_[k], R + 1]] + good[k + 1:]}, "cols"))
+                out.append(({"ms": good[:k] + [[rows_[k], 1]] + good[k + 1:]}, "cols_one"))
+                if rows_[k] != R:
+                    out.append(({"ms": good[:k] + [[R, rows_[k]]] + good[k + 1:]}, "swapped"))
+    return out
+
+
+reg("khatrirao", "khatrirao", lambda a: pl(a["ms"]), lambda a: all(m[1] == a["ms"][0][1] for m in a["ms"]),
+    lambda a: (lambda ms: ([ms], lambda: _ttb().khatrirao(*ms)))([arr(m, 2) for m in a["ms"]]), _g_khatrirao)
+
+
+# ================================================================================================
 # known findings: trigger predicates (as narrow as the defect) and witnesses
 # ================================================================================================
 FINDINGS = []      # source of findings.d/C19.jsonl (written by `python3 tools/props/c19_ops.py --findings`)
@@ -554,6 +1087,7 @@ finding("A-42", "repeated_dims",
         "tt_dimscheck accepts repeated dims; callers then answer when the sizes happen to chain (ttm applies both "
         "matrices to the same mode; ttv on a length-1 1-way tensor; collapse/scale ...)", "pyttb_utils.tt_dimscheck")
 REPEATED_DIMS_OPS = {"tensor.ttv", "tensor.ttm"}
+PROVED = set()
 
 
 if __name__ == "__main__":
